@@ -502,7 +502,8 @@ def corpus():
     out = [WITNESS]
     # hand-picked schedules that exercise every retry path (stale packer / reader / committer / auto-packer)
     for base, roles, k in [(B2, [P, P], 2), (B2, [R, P], 2), (B2, [C(10), P], 2), (B9, [C(10), P], 2),
-                           (B9, [C(10), P], 3), (B9, [C(10), P], 4), (B9, [C(10), P], 5), (B2, [P, P], 3)]:
+                           (B9, [C(10), P], 3), (B9, [C(10), P], 4), (B9, [C(10), P], 5), (B2, [P, P], 3),
+                           (B2, [R, P], 1), (B2, [R, P], 3), (B2, [P, P], 1), (B9, [R, C(10)], 3)]:
         out.append({"kind": "sched", "base": base, "roles": roles, "sched": [0] * k + [1] * STEPS})
     for k in ("diff", "save", "reload"):
         out.append({"kind": k, "at": [0, 1], "cur": [1, 2], "disks": [[0, 1, 3], [], [2], [0, 1, 2, 3]]})
